@@ -22,7 +22,7 @@ def conelp_shortcut(site, ret, items, prem, opts):
     return (pf.implies(prem, goal), repr(goal))
 
 
-def check_finalisation(rule, w, mn, fnn, need_rescale):
+def check_finalisation(rule, w, mn, fnn, need_rescale, pairs=(("s", "primal slack"), ("z", "dual slack"))):
     """R3: every result return in the main loop (and the shortcut) is preceded, in this
     order, by: [rescale of x,y,s,z by one common factor] -> symmetrisation of the 's'
     blocks of the returned s and z -> max_step on them, whose negated results are what
@@ -42,7 +42,7 @@ def check_finalisation(rule, w, mn, fnn, need_rescale):
         key = "%s:result[%s]@%s" % (fnn, "/".join(sorted(sv)), "loop" if in_loop else "shortcut")
         where = m.where(r, fn)
         facts, seq = tm.finalisation(r, stop, None)
-        for k, slack in (("s", "primal slack"), ("z", "dual slack")):
+        for k, slack in pairs:
             obj = items.get(k)
             if isinstance(obj, ast.Constant) and obj.value is None:
                 continue
@@ -51,6 +51,12 @@ def check_finalisation(rule, w, mn, fnn, need_rescale):
                 continue
             f = facts.get(obj.id, {})
             sy, ms = f.get("symm", []), f.get("max_step", [])
+            if not ms:
+                # the piece may be a slice view of the full vector (`sl = s[mnl:]`): the
+                # slack is then computed on the base vector
+                base = _slice_base(r, stop, obj.id)
+                if base:
+                    ms = facts.get(base, {}).get("max_step", [])
             rep = tm.name_of(items.get(slack))
             if not sy:
                 rule.violation(key + ":symm(%s)" % k, where,
@@ -102,6 +108,20 @@ def check_finalisation(rule, w, mn, fnn, need_rescale):
                                "the returned x, y, s, z are not all rescaled by the same reciprocal of the "
                                "homogenising variable on this path (or differently from the sibling result path)",
                                "x, y, s, z each scaled once by (1.0 / tau)", fs)
+
+
+def _slice_base(ret, stop, name):
+    for st in sc.preceding_in_blocks(ret, stop):
+        for a in ast.walk(st):
+            if isinstance(a, ast.Assign):
+                tg, val = a.targets[0], a.value
+                pairs = list(zip(tg.elts, val.elts)) if isinstance(tg, ast.Tuple) and isinstance(val, ast.Tuple) \
+                    and len(tg.elts) == len(val.elts) else [(tg, val)]
+                for x, v in pairs:
+                    if isinstance(x, ast.Name) and x.id == name and isinstance(v, ast.Subscript) \
+                            and isinstance(v.value, ast.Name) and isinstance(v.slice, ast.Slice):
+                        return v.value.id
+    return None
 
 
 def _parents(n, stop):
